@@ -1330,6 +1330,10 @@ func (is *indexSearch) updateTSIDsByOrSuffixes(tf *tagFilter) (*uint64set.Set, e
 			return tsids, err
 		}
 	}
+	// the index rows still hold the ids of dropped series
+	if is.deleted != nil {
+		tsids.Subtract(is.deleted)
+	}
 	return tsids, nil
 }
 
